@@ -5,7 +5,8 @@ small MAX_AGGREGATION_INTERVALS.  Values are distinct powers of two and the rule
 Clauses: an emission contains exactly the values buffered for its interval; every value received
 since the interval was last emitted is in the next emission of that interval (none is dropped
 unemitted while the interval is within the horizon / before it was emitted at least once);
-re-emission only after new data; at most MAX+2 intervals after a flush; idle series released;
+re-emission only after new data; at most MAX+2 intervals after a flush (also when idle intervals age
+out in the same flush that emits fresh ones); idle series released;
 process() feeds every matching rule once and forwards unchanged exactly once under FORWARD_ALL."""
 import argparse
 import itertools
@@ -213,6 +214,18 @@ def main():
         r = run_stream(stream, max_iv)
         if r and not fails:
           fails.append({'id': 'aggregator-stream', 'MAX_AGGREGATION_INTERVALS': max_iv, 'stream': stream, 'what': r})
+  # x idle intervals that age out in the very flush in which s fresh ones are emitted (more than
+  # MAX+2 buffered when that flush starts, at most MAX+2 once the idle ones are gone), then one more
+  # datapoint for each fresh interval in turn while it is still within the horizon, and a flush
+  for max_iv in (1, 2, 3):
+    for x in range(1, max_iv + 5):
+      for s_ in range(1, max_iv + 1):
+        for late in range(s_):
+          stream = list(range(x)) + ['tick'] + ['tick'] * max_iv + list(range(s_)) + ['tick', late + 1, 'tick']
+          evals += 1
+          r = run_stream(stream, max_iv)
+          if r and not fails:
+            fails.append({'id': 'aggregator-stream', 'MAX_AGGREGATION_INTERVALS': max_iv, 'stream': stream, 'what': r})
   pe, pf = sweep_processor()
   evals += pe
   fails += pf
